@@ -16,7 +16,7 @@ LEVEL = "model_checking"
 RULE = ("(a) full product kind x position x required x nullable x literal_enums; (b) full product of kind pairs in one model x "
         "requiredness patterns; (c) deviation-bounded builder (d<=2 quick, d<=3 thorough) over schema / property / operation / tag / "
         "parameter names from the identifier-hostile alphabet, reference-graph shape, parameter location, request and response "
-        "media types, metadata flavour, docstrings_on_attributes, literal_enums; non-trivial = accepted without error-level "
+        "media types, metadata flavour, docstrings_on_attributes, literal_enums; (d) every small reference graph (2 schemas x any of the 4 ordered edges, 3 schemas x <=2 (thorough <=3) edges, edge kinds property / items / union member / additionalProperties / allOf parent, forward and reversed declaration, unrelated and suffix/prefix-related names); (e) the core matrix also declared as OpenAPI 3.0.3 where nothing 3.1-only is used, positions include path-item level parameters shared by two operations; (f) model pairs x how the model is used (component only, multipart / form body, JSON body of one operation and multipart body of another); non-trivial = accepted without error-level "
         "diagnostic and at least one non-default feature")
 FLOOR = 0.5
 ASSUMPTIONS = ["CPython's compile/import/symtable and tomllib decide validity", "names stay inside the quote-free alphabet C01 states"]
@@ -46,6 +46,10 @@ def _matrix():
         labels = [f"kind={kind}", f"pos={pos}"] + ([] if req else ["opt"]) + (["nullable"] if nul else []) + (["literal_enums"] if lit else [])
         yield {"labels": labels, "payload": {"doc": doc, "options": {"literal_enums": lit}, "meta": "none",
                                              "key": f"{pos}/{kind}{'?' if nul else ''}"}}
+        d30 = gen.as_30(doc)
+        if d30 is not None and not lit:        # the same document declared as OpenAPI 3.0.3 (when it uses nothing 3.1-only)
+            yield {"labels": labels + ["v=3.0.3"], "payload": {"doc": d30, "options": {"literal_enums": lit}, "meta": "none",
+                                                              "key": f"{pos}/{kind}{'?' if nul else ''}"}}
 
 
 USAGES = {"none": None, "multipart": "multipart/form-data", "form": "application/x-www-form-urlencoded", "json+multipart": "both"}
